@@ -122,7 +122,37 @@ theorem iter_after_history (w : World V) (hist : List Step) (i : Nat) (f : Famil
   rw [iter_eq_names_map, List.map_map]
   rfl
 
+/-- **any interleaving of live iterators** (`iter(family)` called several times, the iterators advanced in any
+    order, `get_shape` / `names` used in between): every iterator, at every moment, has yielded a prefix of
+    `[(k, get_shape k) for k in names]` and will yield exactly the rest — iterators are independent, because an
+    iterator's position lives in the iterator (generator frame), not in the family -/
+theorem interleaved_iterations (w : World V) (steps : List IStep) :
+    ∀ it ∈ ((⟨w, []⟩ : IState V).run steps).1.iters, ∀ f, w.fams[it.fam]? = some f →
+      it.done ++ f.iterFrom it.rest = f.names.map fun k => (k, f.getShape k) := by
+  intro it hit f hf
+  have h := (IState.run_ok (⟨w, []⟩ : IState V) steps (by intro x hx; cases hx)).2 it hit f hf
+  rw [h, iter_eq_names_map]
+
+/-- an iterator that has been exhausted (whatever else happened in between) has yielded every name once, in
+    the order of `names`, each with the shape of `get_shape` -/
+theorem exhausted_iterator_full (w : World V) (steps : List IStep) :
+    ∀ it ∈ ((⟨w, []⟩ : IState V).run steps).1.iters, it.rest = [] → ∀ f, w.fams[it.fam]? = some f →
+      it.done = f.names.map fun k => (k, f.getShape k) := by
+  intro it hit hr f hf
+  have h := interleaved_iterations w steps it hit f hf
+  rw [hr] at h
+  simpa [Family.iterFrom] using h
+
 end model
+
+/-- `zip(family, family)` on a two-record table: two live iterators advanced alternately each yield the whole
+    table -/
+example :
+    let w : World Nat := ⟨[⟨[("Cube", { type := some "ConvexPolyhedron", verts := 1 }),
+                             ("Ball", { type := some "Sphere", verts := 2 })]⟩]⟩
+    ((⟨w, []⟩ : IState Nat).run [.start 0, .start 0, .next 0, .next 1, .next 0, .next 1, .next 0]).1.iters.map
+        (fun it => it.done.map Prod.fst) = [["Cube", "Ball"], ["Cube", "Ball"]] := by
+  decide
 
 /-- two tables that use the name "Cube" for different records, a third that does not have it: each answers
     from its own table, in any order of queries -/
